@@ -33,16 +33,60 @@ variable (s : PState) (i : Nat) (t : Thread) (f : Nat) (r : CRes)
 @[simp] theorem setThread_panicked : (s.setThread i t).panicked = s.panicked := rfl
 @[simp] theorem setThread_threads : (s.setThread i t).threads = s.threads.set i t := rfl
 
-@[simp] theorem finish_visible : (s.finish i t r).visible = s.visible := rfl
-@[simp] theorem finish_queue : (s.finish i t r).queue = s.queue := rfl
-@[simp] theorem finish_mem : (s.finish i t r).mem = s.mem := rfl
-@[simp] theorem finish_batches : (s.finish i t r).batches = s.batches := rfl
-@[simp] theorem finish_completed : (s.finish i t r).completed = s.completed := rfl
-@[simp] theorem finish_logSeq : (s.finish i t r).logSeq = s.logSeq := rfl
-@[simp] theorem finish_cap : (s.finish i t r).cap = s.cap := rfl
-@[simp] theorem finish_panicked : (s.finish i t r).panicked = s.panicked := rfl
+@[simp] theorem release_visible (o : Own) : (s.release o).visible = s.visible := by unfold release; split <;> rfl
+@[simp] theorem release_queue (o : Own) : (s.release o).queue = s.queue := by unfold release; split <;> rfl
+@[simp] theorem release_mem (o : Own) : (s.release o).mem = s.mem := by unfold release; split <;> rfl
+@[simp] theorem release_batches (o : Own) : (s.release o).batches = s.batches := by unfold release; split <;> rfl
+@[simp] theorem release_completed (o : Own) : (s.release o).completed = s.completed := by unfold release; split <;> rfl
+@[simp] theorem release_logSeq (o : Own) : (s.release o).logSeq = s.logSeq := by unfold release; split <;> rfl
+@[simp] theorem release_threads (o : Own) : (s.release o).threads = s.threads := by unfold release; split <;> rfl
+@[simp] theorem release_cap (o : Own) : (s.release o).cap = s.cap := by unfold release; split <;> rfl
+@[simp] theorem release_panicked (o : Own) : (s.release o).panicked = s.panicked := by unfold release; split <;> rfl
+@[simp] theorem release_returned (o : Own) : (s.release o).returned = s.returned := by unfold release; split <;> rfl
+@[simp] theorem release_dropped (o : Own) : (s.release o).dropped = s.dropped := by unfold release; split <;> rfl
+
+theorem finish_unfold (fo : Option Nat) : ∃ s1 : PState, s.finish i t r fo = s1 ∧
+    s1.visible = s.visible ∧ s1.queue = s.queue ∧ s1.mem = s.mem ∧ s1.batches = s.batches ∧
+    s1.completed = s.completed ∧ s1.logSeq = s.logSeq ∧ s1.cap = s.cap ∧ s1.panicked = s.panicked ∧
+    s1.threads = s.threads.set i { t with pc := .ready, results := r :: t.results } := by
+  refine ⟨_, rfl, ?_⟩
+  unfold finish; dsimp only
+  split
+  · simp
+  · split
+    · simp
+    · exact ⟨rfl, rfl, rfl, rfl, rfl, rfl, rfl, rfl, rfl⟩
+
+variable (fo : Option Nat)
+@[simp] theorem finish_visible : (s.finish i t r fo).visible = s.visible := by
+  obtain ⟨_, rfl, h⟩ := finish_unfold s i t r fo; exact h.1
+@[simp] theorem finish_queue : (s.finish i t r fo).queue = s.queue := by
+  obtain ⟨_, rfl, h⟩ := finish_unfold s i t r fo; exact h.2.1
+@[simp] theorem finish_mem : (s.finish i t r fo).mem = s.mem := by
+  obtain ⟨_, rfl, h⟩ := finish_unfold s i t r fo; exact h.2.2.1
+@[simp] theorem finish_batches : (s.finish i t r fo).batches = s.batches := by
+  obtain ⟨_, rfl, h⟩ := finish_unfold s i t r fo; exact h.2.2.2.1
+@[simp] theorem finish_completed : (s.finish i t r fo).completed = s.completed := by
+  obtain ⟨_, rfl, h⟩ := finish_unfold s i t r fo; exact h.2.2.2.2.1
+@[simp] theorem finish_logSeq : (s.finish i t r fo).logSeq = s.logSeq := by
+  obtain ⟨_, rfl, h⟩ := finish_unfold s i t r fo; exact h.2.2.2.2.2.1
+@[simp] theorem finish_cap : (s.finish i t r fo).cap = s.cap := by
+  obtain ⟨_, rfl, h⟩ := finish_unfold s i t r fo; exact h.2.2.2.2.2.2.1
+@[simp] theorem finish_panicked : (s.finish i t r fo).panicked = s.panicked := by
+  obtain ⟨_, rfl, h⟩ := finish_unfold s i t r fo; exact h.2.2.2.2.2.2.2.1
 @[simp] theorem finish_threads :
-    (s.finish i t r).threads = s.threads.set i { t with pc := .ready, results := r :: t.results } := rfl
+    (s.finish i t r fo).threads = s.threads.set i { t with pc := .ready, results := r :: t.results } := by
+  obtain ⟨_, rfl, h⟩ := finish_unfold s i t r fo; exact h.2.2.2.2.2.2.2.2
+
+@[simp] theorem dropBatch_visible : (s.dropBatch f).visible = s.visible := by unfold dropBatch; split <;> simp
+@[simp] theorem dropBatch_queue : (s.dropBatch f).queue = s.queue := by unfold dropBatch; split <;> simp
+@[simp] theorem dropBatch_mem : (s.dropBatch f).mem = s.mem := by unfold dropBatch; split <;> simp
+@[simp] theorem dropBatch_batches : (s.dropBatch f).batches = s.batches := by unfold dropBatch; split <;> simp
+@[simp] theorem dropBatch_completed : (s.dropBatch f).completed = s.completed := by unfold dropBatch; split <;> simp
+@[simp] theorem dropBatch_logSeq : (s.dropBatch f).logSeq = s.logSeq := by unfold dropBatch; split <;> simp
+@[simp] theorem dropBatch_threads : (s.dropBatch f).threads = s.threads := by unfold dropBatch; split <;> simp
+@[simp] theorem dropBatch_cap : (s.dropBatch f).cap = s.cap := by unfold dropBatch; split <;> simp
+@[simp] theorem dropBatch_panicked : (s.dropBatch f).panicked = s.panicked := by unfold dropBatch; split <;> simp
 
 @[simp] theorem complete_visible : (s.complete f r).visible = s.visible := by unfold complete; split <;> rfl
 @[simp] theorem complete_queue : (s.complete f r).queue = s.queue := by unfold complete; split <;> rfl
@@ -70,6 +114,23 @@ variable (s : PState) (i : Nat) (t : Thread) (f : Nat) (r : CRes)
 @[simp] theorem markFailed_threads : (s.markFailed f).threads = s.threads := rfl
 @[simp] theorem markFailed_batches : (s.markFailed f).batches =
     s.batches.map (fun b => if b.1 == f then (b.1, b.2.1, true) else b) := rfl
+@[simp] theorem setThread_owners : (s.setThread i t).owners = s.owners := rfl
+@[simp] theorem setThread_dropped : (s.setThread i t).dropped = s.dropped := rfl
+@[simp] theorem setThread_returned : (s.setThread i t).returned = s.returned := rfl
+@[simp] theorem complete_owners : (s.complete f r).owners = s.owners := by unfold complete; split <;> rfl
+@[simp] theorem complete_dropped : (s.complete f r).dropped = s.dropped := by unfold complete; split <;> rfl
+@[simp] theorem complete_returned : (s.complete f r).returned = s.returned := by unfold complete; split <;> rfl
+@[simp] theorem complete_panicked : (s.complete f r).panicked = s.panicked := by unfold complete; split <;> rfl
+@[simp] theorem markApplied_permits : (s.markApplied f).permits = s.permits := rfl
+@[simp] theorem markApplied_owners : (s.markApplied f).owners = s.owners := rfl
+@[simp] theorem markApplied_dropped : (s.markApplied f).dropped = s.dropped := rfl
+@[simp] theorem markApplied_panicked : (s.markApplied f).panicked = s.panicked := rfl
+@[simp] theorem markFailed_permits : (s.markFailed f).permits = s.permits := rfl
+@[simp] theorem markFailed_owners : (s.markFailed f).owners = s.owners := rfl
+@[simp] theorem markFailed_dropped : (s.markFailed f).dropped = s.dropped := rfl
+@[simp] theorem markFailed_panicked : (s.markFailed f).panicked = s.panicked := rfl
+@[simp] theorem markApplied_cap : (s.markApplied f).cap = s.cap := rfl
+@[simp] theorem markFailed_cap : (s.markFailed f).cap = s.cap := rfl
 end proj
 
 /-- `publishTop` touches only threads, queue, permits -/
@@ -78,40 +139,40 @@ theorem publishTop_visible (s : PState) (i : Nat) (t : Thread) (f : Nat) (k : FK
   unfold publishTop; dsimp only; split
   · split
     · rfl
-    · split <;> rfl
-  · split <;> rfl
+    · split <;> simp
+  · split <;> simp
 
 theorem publishTop_mem (s : PState) (i : Nat) (t : Thread) (f : Nat) (k : FK) :
     (s.publishTop i t f k).mem = s.mem := by
   unfold publishTop; dsimp only; split
   · split
     · rfl
-    · split <;> rfl
-  · split <;> rfl
+    · split <;> simp
+  · split <;> simp
 
 theorem publishTop_batches (s : PState) (i : Nat) (t : Thread) (f : Nat) (k : FK) :
     (s.publishTop i t f k).batches = s.batches := by
   unfold publishTop; dsimp only; split
   · split
     · rfl
-    · split <;> rfl
-  · split <;> rfl
+    · split <;> simp
+  · split <;> simp
 
 theorem publishTop_completed (s : PState) (i : Nat) (t : Thread) (f : Nat) (k : FK) :
     (s.publishTop i t f k).completed = s.completed := by
   unfold publishTop; dsimp only; split
   · split
     · rfl
-    · split <;> rfl
-  · split <;> rfl
+    · split <;> simp
+  · split <;> simp
 
 theorem publishTop_logSeq (s : PState) (i : Nat) (t : Thread) (f : Nat) (k : FK) :
     (s.publishTop i t f k).logSeq = s.logSeq := by
   unfold publishTop; dsimp only; split
   · split
     · rfl
-    · split <;> rfl
-  · split <;> rfl
+    · split <;> simp
+  · split <;> simp
 
 /-- the queue after `publishTop`: unchanged, or its tail when the head was applied -/
 theorem publishTop_queue (s : PState) (i : Nat) (t : Thread) (f : Nat) (k : FK) :
@@ -131,7 +192,9 @@ theorem stepThread_eq (s : PState) (i : Nat) (t : Thread) (hp : s.panicked = fal
     | .ready => s
     | .begun start =>
       if t.req.keys.isEmpty then s.setThread i { t with pc := .ready, results := .ok :: t.results }
-      else if s.permits > 0 then { (s.setThread i { t with pc := .havePermit start }) with permits := s.permits - 1 }
+      else if s.permits > 0 then
+        { (s.setThread i { t with pc := .havePermit start }) with permits := s.permits - 1,
+                                                                    owners := .thr i :: s.owners }
       else s
     | .havePermit start =>
       match s.oracle.check t.req.keys start with
@@ -145,7 +208,8 @@ theorem stepThread_eq (s : PState) (i : Nat) (t : Thread) (hp : s.panicked = fal
         else
           let s := { s with logSeq := s.logSeq + count, oracle := o,
                             queue := s.queue ++ [(⟨first, count, false⟩ : QB)],
-                            batches := (first, count, false) :: s.batches }
+                            batches := (first, count, false) :: s.batches,
+                            owners := .bat first :: s.owners.erase (.thr i) }
           if t.req.failWal then
             let s := { s with oracle := s.oracle.rollback t.req.keys (first + count - 1) }
             let s := (s.complete first .errWal).markApplied first |>.markFailed first
@@ -168,17 +232,17 @@ theorem stepThread_eq (s : PState) (i : Nat) (t : Thread) (hp : s.panicked = fal
     | .pubDequeued b first failed =>
       { (s.setThread i { t with pc := .pubVisible b first failed }) with visible := max s.visible b.last }
     | .pubVisible b first failed =>
-      let s := (s.complete b.first .ok)
+      let s := (s.complete b.first .ok).dropBatch b.first
       s.publishTop i t first failed
     | .afterPublish first failed =>
-      if failed != .none then s.finish i t .errApply
+      if failed != .none then s.finish i t .errApply (some first)
       else
         match s.completedRes first with
-        | some r => s.finish i t r
+        | some r => s.finish i t r (some first)
         | none => s.setThread i { t with pc := .waiting first }
     | .waiting first =>
       match s.completedRes first with
-      | some r => s.finish i t r
+      | some r => s.finish i t r (some first)
       | none => s := by
   unfold stepThread
   split
@@ -210,8 +274,8 @@ theorem visible_mono_step (s : PState) (i : Nat) : s.visible ≤ (s.stepThread i
       | havePermit start =>
         dsimp only
         split
-        · exact Nat.le_refl _
-        · exact Nat.le_refl _
+        · simp
+        · simp
         · split
           · exact Nat.le_refl _
           · split <;> simp
@@ -228,9 +292,9 @@ theorem visible_mono_step (s : PState) (i : Nat) : s.visible ≤ (s.stepThread i
       | afterPublish f k =>
         dsimp only
         split
-        · exact Nat.le_refl _
-        · split <;> exact Nat.le_refl _
-      | waiting f => dsimp only; split <;> exact Nat.le_refl _
+        · simp
+        · split <;> simp
+      | waiting f => dsimp only; split <;> simp
 
 /-! ### the structural invariant -/
 
@@ -399,10 +463,17 @@ theorem pinv_setThread (s : PState) (h : PInv s) (i : Nat) (t' : Thread) (hpc : 
   exact pcs_set s _ i t' (grows_core_same s _ rfl rfl rfl rfl (fun _ h => h)) rfl h.pcs
     (pcOk_mono s _ (grows_core_same s _ rfl rfl rfl rfl (fun _ h => h)) _ hpc)
 
-theorem pinv_finish (s : PState) (h : PInv s) (i : Nat) (t : Thread) (r : CRes) :
-    PInv (s.finish i t r) := by
-  apply pinv_core_same s (s.finish i t r) h rfl rfl rfl rfl rfl rfl
-  exact pcs_set s _ i _ (grows_core_same s _ rfl rfl rfl rfl (fun _ h => h)) rfl h.pcs trivial
+theorem pinv_finish (s : PState) (h : PInv s) (i : Nat) (t : Thread) (r : CRes) (fo : Option Nat := none) :
+    PInv (s.finish i t r fo) := by
+  apply pinv_core_same s (s.finish i t r fo) h (by simp) (by simp) (by simp) (by simp) (by simp) (by simp)
+  exact pcs_set s _ i { t with pc := .ready, results := r :: t.results }
+    (grows_core_same s _ (by simp) (by simp) (by simp) (by simp) (fun _ h => by simpa using h))
+    (finish_threads s i t r fo) h.pcs trivial
+
+theorem pinv_dropBatch (s : PState) (h : PInv s) (f : Nat) : PInv (s.dropBatch f) :=
+  pinv_core_same s _ h (by simp) (by simp) (by simp) (by simp) (by simp) (by simp)
+    (pcs_same s _ (grows_core_same s _ (by simp) (by simp) (by simp) (by simp) (fun _ h => by simpa using h))
+      (by simp) h.pcs)
 
 /-- dequeuing the applied head of the queue -/
 theorem pinv_dequeue (s : PState) (h : PInv s) (b : QB) (rest : List QB) (hq : s.queue = b :: rest)
@@ -469,10 +540,10 @@ theorem pinv_publishTop (s : PState) (h : PInv s) (i : Nat) (t : Thread) (f : Na
         show b.first + b.count - 1 < qb.first
         omega
     · split
-      · exact pinv_finish s h i t .errWal
+      · exact pinv_finish s h i t .errWal _
       · exact pinv_setThread s h i _ trivial
   · split
-    · exact pinv_finish s h i t .errWal
+    · exact pinv_finish s h i t .errWal _
     · exact pinv_setThread s h i _ trivial
 
 theorem batch_trichotomy : ∀ (l : List (Nat × Nat × Bool)), l.Pairwise (fun n o => o.1 + o.2.1 ≤ n.1) →
@@ -651,13 +722,14 @@ theorem pinv_markApplied (s : PState) (h : PInv s) (f : Nat)
     · right; exact hr
 
 /-- allocating a sequence range and enqueuing the batch -/
-def enq (s : PState) (c : Nat) (o : Oracle) : PState :=
+def enq (s : PState) (c : Nat) (o : Oracle) (ow : List Own) : PState :=
   { s with logSeq := s.logSeq + c, oracle := o,
            queue := s.queue ++ [(⟨s.logSeq, c, false⟩ : QB)],
-           batches := (s.logSeq, c, false) :: s.batches }
+           batches := (s.logSeq, c, false) :: s.batches, owners := ow }
 
-theorem pinv_enqueue (s : PState) (h : PInv s) (c : Nat) (hc : 1 ≤ c) (o : Oracle) : PInv (enq s c o) := by
-  have g : Grows s (enq s c o) := by
+theorem pinv_enqueue (s : PState) (h : PInv s) (c : Nat) (hc : 1 ≤ c) (o : Oracle) (ow : List Own) :
+    PInv (enq s c o ow) := by
+  have g : Grows s (enq s c o ow) := by
     refine ⟨fun _ h => h, ?_, ?_, Nat.le_refl _, Nat.le_add_right _ _, ?_⟩
     · intro f c' ⟨fl, hin⟩; exact ⟨fl, List.mem_cons_of_mem _ hin⟩
     · intro f ⟨c', hin⟩; exact ⟨c', List.mem_cons_of_mem _ hin⟩
@@ -790,10 +862,10 @@ theorem publishTop_threads (s : PState) (i : Nat) (t : Thread) (f : Nat) (k : FK
   · split
     · exact ⟨_, rfl, rfl, fun st h => by cases h⟩
     · split
-      · exact ⟨_, rfl, rfl, fun st h => by cases h⟩
+      · exact ⟨_, finish_threads _ _ _ _ _, rfl, fun st h => by cases h⟩
       · exact ⟨_, rfl, rfl, fun st h => by cases h⟩
   · split
-    · exact ⟨_, rfl, rfl, fun st h => by cases h⟩
+    · exact ⟨_, finish_threads _ _ _ _ _, rfl, fun st h => by cases h⟩
     · exact ⟨_, rfl, rfl, fun st h => by cases h⟩
 
 theorem reqInv_init (n : Nat) : ReqInv (PState.init n) := by
@@ -835,8 +907,8 @@ theorem reqInv_step (s : PState) (h : ReqInv s) (i : Nat) : ReqInv (s.stepThread
       | havePermit start =>
         dsimp only
         split
-        · exact reqInv_set s _ i _ h rfl (fun st hst => by cases hst)
-        · exact reqInv_set s _ i _ h rfl (fun st hst => by cases hst)
+        · exact reqInv_set s _ i _ h (finish_threads s i t _ _) (fun st hst => by cases hst)
+        · exact reqInv_set s _ i _ h (finish_threads s i t _ _) (fun st hst => by cases hst)
         · split
           · exact h
           · split
@@ -863,19 +935,19 @@ theorem reqInv_step (s : PState) (h : ReqInv s) (i : Nat) : ReqInv (s.stepThread
       | pubDequeued b f k =>
         exact reqInv_set s _ i _ h rfl (fun st hst => by cases hst)
       | pubVisible b f k =>
-        obtain ⟨t', hth, _, hne⟩ := publishTop_threads (s.complete b.first .ok) i t f k
+        obtain ⟨t', hth, _, hne⟩ := publishTop_threads ((s.complete b.first .ok).dropBatch b.first) i t f k
         exact reqInv_set s _ i t' h (by rw [hth]; simp) (fun st hst => absurd hst (hne st))
       | afterPublish f k =>
         dsimp only
         split
-        · exact reqInv_set s _ i _ h rfl (fun st hst => by cases hst)
+        · exact reqInv_set s _ i _ h (finish_threads s i t _ _) (fun st hst => by cases hst)
         · split
-          · exact reqInv_set s _ i _ h rfl (fun st hst => by cases hst)
+          · exact reqInv_set s _ i _ h (finish_threads s i t _ _) (fun st hst => by cases hst)
           · exact reqInv_set s _ i _ h rfl (fun st hst => by cases hst)
       | waiting f =>
         dsimp only
         split
-        · exact reqInv_set s _ i _ h rfl (fun st hst => by cases hst)
+        · exact reqInv_set s _ i _ h (finish_threads s i t _ _) (fun st hst => by cases hst)
         · exact h
 
 /-- every step of every thread preserves the invariant -/
@@ -912,6 +984,7 @@ theorem pinv_step (s : PState) (h : PInv s) (hr : ReqInv s) (i : Nat) : PInv (s.
             have hc : 1 ≤ t.req.keys.length := hr i t ht start hpc
             · have he := pinv_enqueue s h t.req.keys.length hc
                 (s.oracle.publish s.gc t.req.keys s.logSeq t.req.keys.length 0)
+                (.bat s.logSeq :: s.owners.erase (.thr i))
               split
               · -- WAL failure
                 have h1 := pinv_setOracle _ he
@@ -919,7 +992,8 @@ theorem pinv_step (s : PState) (h : PInv s) (hr : ReqInv s) (i : Nat) : PInv (s.
                     (s.logSeq + t.req.keys.length - 1))
                 have h2 := pinv_complete_err _ h1 s.logSeq .errWal (by decide)
                 have hfail : failedB ((({ enq s t.req.keys.length
-                    (s.oracle.publish s.gc t.req.keys s.logSeq t.req.keys.length 0) with
+                    (s.oracle.publish s.gc t.req.keys s.logSeq t.req.keys.length 0)
+                    (.bat s.logSeq :: s.owners.erase (.thr i)) with
                     oracle := (s.oracle.publish s.gc t.req.keys s.logSeq t.req.keys.length 0).rollback t.req.keys
                       (s.logSeq + t.req.keys.length - 1) } : PState).complete s.logSeq .errWal).markFailed s.logSeq)
                     s.logSeq := by
@@ -989,16 +1063,16 @@ theorem pinv_step (s : PState) (h : PInv s) (hr : ReqInv s) (i : Nat) : PInv (s.
         obtain ⟨⟨fl, hin⟩, hle⟩ := hpcok
         dsimp only
         have h1 := pinv_complete_ok s h b.first ⟨b.count, fl, hin, hle⟩
-        exact pinv_publishTop _ h1 i t f k
+        exact pinv_publishTop _ (pinv_dropBatch _ h1 b.first) i t f k
       | afterPublish f k =>
         dsimp only
         split
-        · exact pinv_finish s h i t _
+        · exact pinv_finish s h i t _ _
         · split
-          · exact pinv_finish s h i t _
+          · exact pinv_finish s h i t _ _
           · exact pinv_setThread s h i _ trivial
       | waiting f =>
         dsimp only
         split
-        · exact pinv_finish s h i t _
+        · exact pinv_finish s h i t _ _
         · exact h
